@@ -176,7 +176,17 @@ func (r *CheckRun) propFuncs() ([]string, error) {
 	return keys, nil
 }
 
-func (r *CheckRun) Run() int {
+func (r *CheckRun) Run() (code int) {
+	defer func() {
+		if rec := recover(); rec != nil {
+			if ee, ok := rec.(evalErr); ok {
+				fmt.Fprintln(os.Stderr, "ENGINE-ERROR:", string(ee))
+				code = 2
+				return
+			}
+			panic(rec)
+		}
+	}()
 	P := r.P
 	// every contract must name an existing function or interface method
 	for k, c := range P.Spec.Contracts {
